@@ -118,7 +118,15 @@ pub fn build_proof(rng: &mut impl Rng, env: &PayEnv, content: XorName, n: usize,
     if !c.signed {
         // one quote whose signature does not belong to its claimed node
         let i = rng.gen_range(0..n);
-        match rng.gen_range(0..4) {
+        match rng.gen_range(0..5) {
+            4 => {
+                // a payee listed twice: an altered copy of its quote (the signature no longer covers it) ahead of the
+                // genuine one - whoever de-duplicates by payee must not lose sight of the forged entry
+                let mut forged = quotes[i].clone();
+                forged.1.quoting_metrics.close_records_stored ^= 1;
+                forged.1.quoting_metrics.received_payment_count = 0;
+                quotes.insert(i, forged);
+            }
             3 => {
                 // a complete, internally consistent quote made by somebody else (own key, own signature),
                 // listed under the payee's peer id
@@ -478,6 +486,48 @@ impl Check for C03 {
                 let stored2 = sim.get_local(0, &key).is_some() || sim.has_key(0, &key);
                 if stored2 || matches!(r2, Some(Ok(()))) {
                     cx.violation(format!("stored-without-valid-payment:{what}"), format!("the proof was acceptable when first presented (content refused: {r1:?}); presented again after that, the upload was {} (result {r2:?})", if stored2 { "stored" } else { "accepted" }), json!({"history": ["paid proof + scratchpad not signed by its owner", what, "same proof + valid scratchpad"]}));
+                }
+            }
+        }
+        // ---- a confirmed payment of an EARLIER upload lends nothing to a later one: upload 1 is fully paid and stored; the
+        //      proof of upload 2 (another address) carries this node's fresh quote, which nobody paid, next to another
+        //      payee's quote taken from upload 1, which the contract did confirm
+        if cx.rng.gen_bool(0.35) {
+            let stub = sim.stub.as_ref().expect("stub");
+            let c1 = gen::chunk(&mut cx.rng, 300);
+            let c2 = gen::chunk(&mut cx.rng, 300);
+            let proof1 = build_proof(&mut cx.rng, &env, *c1.name(), 3, Conds::all(), stub);
+            let mut proof2 = build_proof(&mut cx.rng, &env, *c2.name(), 3, Conds::all(), stub);
+            let me = PeerId::from(env.node_kp.public());
+            // nobody paid for upload 2 ...
+            for (_, q) in proof2.peer_quotes.iter() {
+                stub.set_paid(q.hash().0, 1_000, false);
+            }
+            // ... and one of its other payees' entries is replaced by a payee's confirmed quote from upload 1
+            let donor = proof1.peer_quotes.iter().find(|(e, _)| e.to_peer_id().map(|p| p != me).unwrap_or(false)).cloned();
+            let slot = proof2.peer_quotes.iter().position(|(e, _)| e.to_peer_id().map(|p| p != me).unwrap_or(false));
+            if let (Some(donor), Some(slot)) = (donor, slot) {
+                proof2.peer_quotes.retain(|(e, _)| e.to_peer_id().ok() != donor.0.to_peer_id().ok());
+                let slot = slot.min(proof2.peer_quotes.len());
+                proof2.peer_quotes.insert(slot, donor);
+                let k1 = NetworkAddress::from_chunk_address(*c1.address()).to_record_key();
+                let k2 = NetworkAddress::from_chunk_address(*c2.address()).to_record_key();
+                let r1rec = gen::record(k1.clone(), try_serialize_record(&(proof1, c1.clone()), RecordKind::ChunkWithPayment).expect("ser").to_vec());
+                let r2rec = gen::record(k2.clone(), try_serialize_record(&(proof2, c2.clone()), RecordKind::ChunkWithPayment).expect("ser").to_vec());
+                let n2 = node.clone();
+                let r1 = sim.run_op(async move { n2.validate_and_store_record(r1rec).await });
+                let stored1 = sim.get_local(0, &k1).is_some() || sim.has_key(0, &k1);
+                let n2 = node.clone();
+                let r2 = sim.run_op(async move { n2.validate_and_store_record(r2rec).await });
+                let stored2 = sim.get_local(0, &k2).is_some() || sim.has_key(0, &k2);
+                cx.eval();
+                if stored1 && matches!(r1, Some(Ok(()))) {
+                    cx.count("uploads:own-quote-unpaid-next-to-a-quote-confirmed-for-an-earlier-upload");
+                    if stored2 || matches!(r2, Some(Ok(()))) {
+                        cx.violation("stored-without-valid-payment:quote-confirmed-for-an-earlier-upload-reused", format!("upload 2 carries this node's unpaid quote next to another payee's quote that was confirmed for upload 1; it was {} (result {r2:?})", if stored2 { "stored" } else { "accepted" }), json!({"history": ["paid upload 1 stored", "upload 2: own quote unpaid + payee quote of upload 1"]}));
+                    }
+                } else {
+                    cx.count("uploads:earlier-paid-upload-not-stored(history-not-judged)");
                 }
             }
         }
